@@ -500,3 +500,92 @@ def option_probes(run, kinds):
         except Exception as e:  # noqa: BLE001
             run.oracle_fail("subclass-shadow", [spelling], f"declaring a shadow tensorclass by subclassing raises {type(e).__name__}: {str(e)[:120]}",
                             fingerprint=f"subclass-shadow:{spelling}")
+
+
+# --------------------------------------------------------------------------- tensorclass __getitem__ / __setitem__ (non-tensor dict bookkeeping)
+def items_stream(run, drv):
+    """`tc[item]` and `tc[item] = value` for every kind of value `_setitem` distinguishes; compared with the model:
+    error class, class of the result, key set of `_tensordict`, `_non_tensordict`"""
+    @tensorclass
+    class Other:          # another class with the same members as D1
+        x: torch.Tensor
+        n: Z.Nest
+        s: str
+        o: Optional[torch.Tensor] = None
+        d: str = "dflt"
+
+    @tensorclass
+    class Foreign:        # another class with different members
+        x: torch.Tensor
+        q: str = "q"
+
+    def with_o(cls):
+        v = Z.make(cls)
+        v.o = torch.ones(2, 3)
+        return v
+    values = [
+        ("same-class", lambda: Z.make(Z.D1, seed=1)), ("same-class+o", lambda: with_o(Z.D1)),
+        ("other-class-same-members", lambda: Other(x=torch.zeros(2, 3, 4), n=Z.Nest(y=torch.zeros(2, 3), batch_size=[2, 3]), s="hi0", batch_size=[2, 3])),
+        ("foreign-class", lambda: Foreign(x=torch.zeros(2, 3, 4), batch_size=[2, 3])),
+        ("bare-td", lambda: Z.make(Z.D1, seed=1)._tensordict), ("scalar", lambda: 0.0), ("tensor", lambda: torch.zeros(())),
+        ("other:str", lambda: "nope"), ("other:list", lambda: [1, 2]),
+    ]
+    items = [("batch", 0), ("batch", slice(0, 1)), ("batch", (0, slice(None))), ("batch", torch.tensor([True, False])), ("key", "x"), ("key", ("n", "y"))]
+    reqs, pend = [], []
+    for cname in ("D1", "S1", "Nc", "Sh"):
+        cls = Z.BEHAVIOUR_CLASSES[cname]
+        fields = sorted(cls.__expected_keys__)
+        for ikind, item in items:
+            # reads
+            tc = Z.make(cls)
+            try:
+                r = tc[item]
+                impl = ["ok", type(r).__name__, B.nt_sorted_desc(r)]
+            except Exception as e:  # noqa: BLE001
+                impl = ["err", err_class(e)]
+            run.case(("getitem", cname, repr(item)))
+            reqs.append(sx("c15.getitem", ikind, cname, fields, ["td", "t0", B._keys(tc._tensordict)], B.nt_desc(tc)))
+            pend.append((["getitem", cname, repr(item)], impl, None))
+            for vname, mk in values:
+                tc = Z.make(cls)
+                v = mk()
+                if is_tensorclass(v) and ikind == "batch":
+                    v = v[item]
+                elif isinstance(v, TensorDictBase) and ikind == "batch":
+                    v = v[item]
+                if is_tensorclass(v):
+                    vd = ["tc", type(v).__name__ if type(v) is not cls else cname, ["td", "tv", B._keys(v._tensordict)], B.nt_desc(v)]
+                elif isinstance(v, TensorDictBase):
+                    vd = ["tdv", ["td", "tv", B._keys(v)]]
+                elif vname in ("scalar", "tensor"):
+                    vd = "scalar"
+                else:
+                    vd = "other"
+                before = B.nt_desc(tc)
+                before_keys = B._keys(tc._tensordict)
+                try:
+                    with warnings.catch_warnings():
+                        warnings.simplefilter("ignore")
+                        tc[item] = v
+                    impl = ["ok", cname, sorted(B._keys(tc._tensordict)), B.nt_sorted_desc(tc)]
+                except Exception as e:  # noqa: BLE001
+                    impl = ["err", err_class(e)]
+                run.case(("setitem", cname, repr(item), vname))
+                run.count("items.value", vname)
+                reqs.append(sx("c15.setitem", ikind, cname, ["td", "t0", before_keys], before, vd))
+                pend.append((["setitem", cname, repr(item), vname], impl, tc))
+    for (case, impl, tc), ans in zip(pend, drv.ask_many(reqs)):
+        m = parse_sx(ans)
+        if m[0] == "err":
+            model = ["err", m[1]]
+        elif case[0] == "getitem":
+            model = ["ok", m[1], m[2]]
+        else:
+            model = ["ok", m[1], m[2], m[3]]
+        run.corr("tensorclass.__getitem__/__setitem__", case, impl, model)
+        if tc is not None and impl[0] == "ok":
+            bad = B.fields_readable(tc)
+            if bad:
+                run.oracle_fail("setitem-fields", case, f"after the indexed assignment fields {bad} do not read as the underlying entries", fingerprint=f"setitem:{case[3]}")
+            else:
+                run.oracle_ok("setitem-fields")
